@@ -63,8 +63,8 @@ def check_script(ctx, stmts, text, what='plain script'):
         return None
     plain = grammar.plain_layout(ctx.rng)
     for i, (st, piece) in enumerate(zip(stmts, pieces)):
-        want = oracles.sig(plain.render(st) + (' ;' if piece.rstrip().endswith(';') or i < k - 1 else ''))
         got = oracles.sig(piece)
+        want = oracles.sig(plain.render(st) + (' ;' if (got and got[-1] == ('Punctuation', ';')) or i < k - 1 else ''))
         if want != got:
             ctx.fail('%s: statement %d has the wrong extent' % (what, i), text, observed=piece, required=plain.render(st))
             return None
